@@ -151,7 +151,8 @@ def field_mutants(rnd, z, limit=None):
     if limit and len(res) > limit:
         keep = [r for r in res if r[0] in ('sum-boundary', 'opt-backward-loop')]
         rest = [r for r in res if r[0] not in ('sum-boundary', 'opt-backward-loop')]
-        res = keep[:limit // 3] + rnd.sample(rest, min(len(rest), limit - len(keep[:limit // 3])))
+        # the boundary constructions are few and each one matters: all of them, plus a sample of the rest
+        res = keep + rnd.sample(rest, min(len(rest), max(limit - len(keep), limit // 2)))
     return res
 
 def raw_mutants(rnd, b, hl, count):
